@@ -98,6 +98,10 @@ func main() {
 		sortBig([]fqlast.SortKey{{E: bigField("b"), Desc: true, Dir: "DESC"}}),
 		sortBig([]fqlast.SortKey{{E: bigField("a"), Dir: "ASC"}, {E: bigField("b"), Desc: true, Dir: "DESC"}}),
 		sortBig([]fqlast.SortKey{{E: fqlast.Int(0)}}),
+		// a key without a direction is ascending whatever the direction of the key before it
+		sortBig([]fqlast.SortKey{{E: bigField("a"), Desc: true, Dir: "DESC"}, {E: bigField("b")}}),
+		sortBig([]fqlast.SortKey{{E: bigField("b"), Desc: true, Dir: "DESC"}, {E: bigField("a")}, {E: bigField("k"), Desc: true, Dir: "DESC"}}),
+		sortBig([]fqlast.SortKey{{E: bigField("a"), Dir: "ASC"}, {E: bigField("b"), Desc: true, Dir: "DESC"}, {E: bigField("k")}}),
 		// integer literals are decimal whatever their spelling (leading zeros)
 		{Ret: fqlast.Arr(&fqlast.E{K: "int", Int: 10, Str: "010"}, &fqlast.E{K: "int", Int: 7, Str: "007"},
 			fqlast.Math("+", &fqlast.E{K: "int", Int: 10, Str: "0010"}, fqlast.Int(1)), &fqlast.E{K: "int", Int: 0, Str: "00"})},
